@@ -42,130 +42,6 @@ ALLOWED_SITES = {
 FLOORS = {"Lazy::MPlusDFS": 4, "Lazy::BindDFS": 4, "Lazy::PauseDFS": 7}
 
 
-def census(ctx, lib, rule, allowed, floors):
-    """Every construction site of the listed Lazy variants lies in a function covered by a table."""
-    ev = streams.evaluator(lib)
-    counts = {k: 0 for k in allowed}
-    for p, fn in sorted(lib.fns.items()):
-        if "hir" not in fn or fn.get("in_test_mod") or fn["span"].endswith("!"):
-            continue
-        t = ev.fn_term(fn)
-        for variant, okfns in allowed.items():
-            n = len(list(sym.ctors(t, variant)))
-            if not n:
-                continue
-            counts[variant] += n
-            ctx.fn_seen(p)
-            if any(p.endswith(s) or s in p for s in okfns):
-                ctx.ok(rule, "%s|constructs=%s" % (p, variant), site_of(fn), "%d site(s)" % n)
-            else:
-                ctx.violation(rule, "%s|constructs=%s" % (p, variant), site_of(fn), "function builds a %s node but is not covered by an equation table (unrecognised construction site)" % variant)
-    for variant, n in counts.items():
-        ctx.floor(rule, n, floors[variant], "%s construction sites" % variant)
-
-
-def check_conde_fold(ctx, lib, rule, mode):
-    """Conde::solve, branch of `mode`: stream = Empty; for c in clauses[1..] reversed: stream = merge(solve(c, state.clone()), Delay(stream));
-    then stream = merge(solve(clauses[0], state), Delay(stream))."""
-    fn = streams.getfn(ctx, lib, rule, "<crate::operator::conde::Conde as crate::solver::Solve>::solve")
-    if not fn:
-        return
-    t = streams.plain_evaluator(lib).fn_term(fn)
-    key = fn["npath"] + "|" + mode["name"]
-    site = site_of(fn)
-    # find the branch
-    cur = tables.result(t)
-    branch = None
-    dc = None
-    goalname = "goal::%s>" % mode["goal"]
-    while isinstance(cur, tuple) and cur and cur[0] == "if":
-        cond = cur[1]
-        if cond[0] == "iflet" and cond[2][0] == "call" and "downcast_ref" in cond[2][1] and ("Conde<crate::goal::%s>" % mode["goal"] in cond[2][1] or "Conde<goal::%s>" % mode["goal"] in cond[2][1]):
-            branch, dc = cur[2], cond[2]
-            break
-        cur = tables.result(cur[3]) if cur[3] is not None else None
-    if branch is None:
-        ctx.violation(rule, key + "|branch", site, "no branch selected by a downcast to Conde<%s> found" % mode["goal"])
-        return
-    eff, res = tables.flatten(branch)
-    clauses = ("field", ("proj", dc, sym.ANY, 0), "conjunctions")
-    if not (res and res[0] == "var"):
-        ctx.violation(rule, key + "|shape", site, "branch does not return its accumulated stream: %s" % show(res, maxdepth=3))
-        return
-    acc = res
-    merge = mode["mplus"]
-    steps = []  # (kind, clause-source, node)
-
-    def visit(e, guard):
-        if e[0] == "if":
-            for sub in tables.stmts_of(e[2]):
-                visit(sub, e[1])
-        elif e[0] == "for":
-            for sub in tables.stmts_of(e[3]):
-                if sub[0] == "assign" and sub[1] == acc:
-                    steps.append(("loop", e[1], sub[2], ("item", e[1])))
-        elif e[0] == "assign" and e[1] == acc:
-            steps.append(("single", None, e[2], None))
-
-    for e in eff:
-        visit(e, None)
-    init = [e for e in eff if e[0] == "let" and e[1][0] == "pbind" and e[1][1] == acc[1]]
-    ctx.expect(bool(init) and unify(pat("Stream::Empty"), init[0][2]) is not None, rule, key + "|init", site, "accumulator must start as the empty stream")
-    ok = True
-    order = []
-    for kind, it, rhs, item in steps:
-        want_new = sym.V("new")
-        shape = ("call", sym.P(merge), (want_new, ("ctor", sym.P("LazyStream"), (("ctor", sym.P("Lazy::Delay"), (acc,)),))))
-        b = unify(shape, rhs)
-        if b is None:
-            ctx.violation(rule, key + "|step", site, "each step must be acc = %s(<stream of the clause>, Delay(acc)): new stream first, accumulated alternatives delayed second; found %s" % (merge, show(rhs, maxdepth=5)[:300]))
-            ok = False
-            continue
-        new = b["new"]
-        if not (new[0] == "call" and suffix_match(new[1], "solve") and len(new[2]) == 3):
-            ctx.violation(rule, key + "|step-solve", site, "the merged stream must be clause.solve(solver, state): %s" % show(new, maxdepth=4)[:200])
-            ok = False
-            continue
-        who = new[2][0]
-        if kind == "loop":
-            if who != item:
-                ctx.violation(rule, key + "|step-item", site, "loop step solves %s instead of the loop's clause" % show(who, maxdepth=3))
-                ok = False
-            src, chain = streams.iter_chain(it)
-            names = [n for n, _ in chain]
-            rev = names.count("rev") % 2 == 1
-            # acceptable: iter().rev().take(len-1) | iter().skip(1).rev() | iter().rev() (no separate first)
-            lossy = [n for n in names if n not in streams.ONE_TO_ONE and n != "rev"]
-            good_src = unify(clauses, src) is not None
-            desc = None
-            if good_src and rev and not lossy:
-                desc = "all-reversed"
-            elif good_src and rev and lossy == ["take"] and names.index("take") > names.index("rev"):
-                tk = [n for n in chain if n[0] == "take"][0][1]
-                cnt = tk[2][1]
-                if cnt[0] == "binop" and cnt[1] == "Sub" and cnt[3] == ("lit", cnt[3][1]) and "Pu128(1)" in cnt[3][1] and cnt[2][0] == "call" and suffix_match(cnt[2][1], "len"):
-                    desc = "reversed-without-first"
-            elif good_src and rev and lossy == ["skip"] and names.index("skip") < names.index("rev"):
-                sk = [n for n in chain if n[0] == "skip"][0][1]
-                if "Pu128(1)" in str(sk[2][1]):
-                    desc = "reversed-without-first"
-            if desc is None:
-                ctx.violation(rule, key + "|iteration", site, "clauses must be folded from the last to the second (reverse iteration, nothing skipped but clause 0): %s" % show(it, maxdepth=6)[:240])
-                ok = False
-            order.append(desc)
-        else:
-            first = ("index", clauses, sym.ANY)
-            if unify(first, who) is None or "Pu128(0)" not in str(who[2]):
-                ctx.violation(rule, key + "|first", site, "the separately handled clause must be clause 0: %s" % show(who, maxdepth=4))
-                ok = False
-            order.append("first")
-    if ok:
-        if order == ["reversed-without-first", "first"] or order == ["all-reversed"]:
-            ctx.ok(rule, key + "|fold", site, "clauses folded n-1..1 then 0; each new clause stream merged in front of the delayed accumulator")
-        else:
-            ctx.violation(rule, key + "|fold-order", site, "unrecognised fold sequence %s (expected reversed clauses 1.. then clause 0 last)" % order)
-
-
 def check_dfs_operator(ctx, lib, rule):
     fn = streams.getfn(ctx, lib, rule, "crate::operator::dfs::dfs")
     if not fn:
@@ -232,7 +108,7 @@ def run(ctx, fb, cfg):
     streams.check_engine_step(ctx, lib, R + "K5.engine-step", [DFS])
     streams.check_engine_delay_iter(ctx, lib, R + "K3.engine-iter")
     streams.check_start(ctx, lib, DFS, R + "K3.start-dfs")
-    check_conde_fold(ctx, lib, R + "K6.cond-fold", DFS)
+    streams.check_conde_fold(ctx, lib, R + "K6.cond-fold", DFS)
     for f in ("from_vec", "from_array"):
         streams.check_right_fold(ctx, lib, R + "K6.builder", "crate::operator::conj::DFSConj::" + f, "DFSGoal::Succeed", "DFSConj::new")
         streams.check_right_fold(ctx, lib, R + "K6.builder", "crate::operator::disj::DFSDisj::" + f, "DFSGoal::Fail", "DFSDisj::new")
@@ -240,7 +116,7 @@ def run(ctx, fb, cfg):
     check_from_conjunctions(ctx, lib, R + "K6.builder", "crate::operator::conj::DFSConj::from_conjunctions", "DFSGoal::Succeed", "DFSConj::new", "DFSConj::from_array")
     check_from_conjunctions(ctx, lib, R + "K6.builder", "crate::operator::disj::DFSDisj::from_conjunctions", "DFSGoal::Fail", "DFSDisj::new", "DFSConj::from_array")
     check_dfs_operator(ctx, lib, R + "K5.dfs-operator")
-    census(ctx, lib, R + "K1.construction-sites", ALLOWED_SITES, FLOORS)
+    streams.census(ctx, lib, R + "K1.construction-sites", ALLOWED_SITES, FLOORS)
 
 
 def check_from_conjunctions(ctx, lib, rule, fn_suffix, unit, new, inner):
